@@ -332,6 +332,19 @@ def guard_atoms(test: ast.AST) -> list[tuple[str, bool]]:
                 go(v, pol)
         elif isinstance(e, ast.UnaryOp) and isinstance(e.op, ast.Not):
             go(e.operand, not pol)
+        elif isinstance(e, ast.Compare) and len(e.ops) == 1 and \
+                isinstance(e.ops[0], (ast.Is, ast.IsNot, ast.Eq, ast.NotEq)) \
+                and isinstance(e.comparators[0], ast.Constant) and \
+                e.comparators[0].value is None:
+            neg = isinstance(e.ops[0], (ast.Is, ast.Eq))
+            out.append((txt(e.left), pol != neg))
+        elif isinstance(e, ast.Compare) and len(e.ops) == 1 and \
+                isinstance(e.ops[0], ast.NotIn):
+            out.append((f'{txt(e.left)} in {txt(e.comparators[0])}',
+                        not pol))
+        elif isinstance(e, ast.Call) and isinstance(e.func, ast.Name) and \
+                e.func.id == 'bool' and len(e.args) == 1:
+            go(e.args[0], pol)
         else:
             out.append((txt(e), pol))
     go(test, True)
